@@ -27,6 +27,8 @@ type c1Mirror struct {
 	selfTag string
 	// expungeIssued: the last tagged OK said [EXPUNGEISSUED]: sequence numbers refer to messages that are gone
 	expungeIssued bool
+	// expunges counts the EXPUNGE responses received so far
+	expunges int
 }
 
 const (
@@ -62,6 +64,7 @@ func (m *c1Mirror) apply(r response.Response) {
 		}
 	case 2:
 		k := int(d.N)
+		m.expunges++
 		vsymAssert(k >= 1 && k <= len(m.ents), "EXPUNGE seq within the announced count")
 		if k >= 1 && k <= len(m.ents) {
 			m.ents = append(m.ents[:k-1:k-1], m.ents[k:]...)
@@ -184,8 +187,26 @@ func VerifC01Session() {
 	flagNames := []string{imap.FlagSeen, imap.FlagDeleted, imap.FlagFlagged}
 	flagMasks := []int{c1Seen, c1Deleted, c1Flagged}
 
+	held := func() bool { // a removal is queued for the observer but not yet announced
+		var h bool
+		_ = obs.state.Selected(ctx, func(mb *state.Mailbox) error { h = mb.ExpungeIssued(); return nil })
+		return h
+	}
+	// c05: obligations on one command of the observer: noExpunge = FETCH / STORE / SEARCH (and UID variants)
+	c05 := func(before int, noExpunge bool) {
+		if noExpunge {
+			vsymAssert(mirror.expunges == before, "no EXPUNGE response while a FETCH, STORE or SEARCH is answered")
+			if held() {
+				vsymCover("held-back")
+				vsymAssert(mirror.expungeIssued, "a FETCH, STORE or SEARCH that held back a removal says [EXPUNGEISSUED]")
+			}
+		} else {
+			vsymAssert(!held(), "a command that permits it announces every removal that is due")
+		}
+	}
+
 	for step := 0; step < k; step++ {
-		switch vsymChoice("event", 7) {
+		switch vsymChoice("event", 8) {
 		case 0: // observer: STORE seq (+|-|)FLAGS[.SILENT] (flag)
 			if len(mirror.ents) == 0 {
 				vsymAssume(false)
@@ -198,9 +219,11 @@ func VerifC01Session() {
 				f21, mirror.selfTag = true, "F21"
 			}
 			cmd := &command.Store{SeqSet: one(seq), Action: []command.StoreAction{command.StoreActionAddFlags, command.StoreActionRemFlags, command.StoreActionSetFlags}[ai], Flags: []string{flagNames[fi]}, Silent: silent}
+			before := mirror.expunges
 			err := obs.handleCommand(obsCtx, "a", cmd, ch)
 			vsymAssert(err == nil, "STORE on an announced sequence number is answered")
 			drain(ch, mirror)
+			c05(before, true)
 			if err == nil && silent && seq <= len(mirror.ents) && mirror.expungeIssued {
 				// a client told [EXPUNGEISSUED] knows its numbers are stale: what its silent store did to which message
 				// is not something it can compute - the flags of that entry become unknown (the most lenient model)
@@ -232,9 +255,11 @@ func VerifC01Session() {
 				f21 = true
 			}
 			cmd := &command.Fetch{SeqSet: one(seq), Attributes: []command.FetchAttribute{&command.FetchAttributeFlags{}, &command.FetchAttributeBodySection{Peek: peek}}}
+			before := mirror.expunges
 			err := obs.handleCommand(obsCtx, "a", cmd, ch)
 			vsymAssert(err == nil, "FETCH of an announced sequence number is answered")
 			drain(ch, mirror)
+			c05(before, true)
 			mirror.probe(obs.state)
 			vsymCover("own-fetch")
 		case 2: // observer: EXPUNGE / NOOP / CHECK
@@ -248,9 +273,11 @@ func VerifC01Session() {
 			case 2:
 				cmd = &command.Check{}
 			}
+			before := mirror.expunges
 			err := obs.handleCommand(obsCtx, "a", cmd, ch)
 			vsymAssert(err == nil, "EXPUNGE / NOOP / CHECK is answered")
 			drain(ch, mirror)
+			c05(before, false)
 			mirror.probe(obs.state)
 			vsymCover("own-plain")
 		case 3: // the other session: STORE 1 (+|-)FLAGS (flag)
@@ -282,6 +309,23 @@ func VerifC01Session() {
 			u := <-obs.state.GetStateUpdatesCh()
 			vsymAssert(obs.state.ApplyUpdate(obsCtx, u) == nil, "update applies")
 			vsymCover("update-delivered")
+		case 7: // observer: SEARCH ALL / UID SEARCH ALL / UID FETCH 1:* (FLAGS)
+			var cmd command.Payload
+			switch vsymChoice("searchKind", 3) {
+			case 0:
+				cmd = &command.Search{Keys: []command.SearchKey{&command.SearchKeyAll{}}}
+			case 1:
+				cmd = &command.UID{Command: &command.Search{Keys: []command.SearchKey{&command.SearchKeyAll{}}}}
+			case 2:
+				cmd = &command.UID{Command: &command.Fetch{SeqSet: []command.SeqRange{{Begin: 1, End: 0}}, Attributes: []command.FetchAttribute{&command.FetchAttributeFlags{}}}}
+			}
+			before := mirror.expunges
+			err := obs.handleCommand(obsCtx, "a", cmd, ch)
+			vsymAssert(err == nil, "SEARCH / UID SEARCH / UID FETCH is answered")
+			drain(ch, mirror)
+			c05(before, true)
+			mirror.probe(obs.state)
+			vsymCover("own-search")
 		case 6: // every queued update reaches the observer
 			for queued() {
 				u := <-obs.state.GetStateUpdatesCh()
